@@ -13,7 +13,7 @@ ID = 'C10'
 LEVEL = 'exploration'
 RULE = ('Generated hand-overs: app pa with k in 0..3 evolutions (each adds a column) followed by '
         'an evolution holding MoveToDjangoMigrations(mark_applied = the first p of m migrations, '
-        '1<=p<=m<=4; the default argument when p=1), a chain 0001_initial..000m of migrations '
+        '0<=p<=m<=4; the default argument when p=1), a chain 0001_initial..000m of migrations '
         '(0001 creates the model as it is at hand-over, each later one adds a column; the '
         'columns of the marked ones already exist in the evolution-era model), x start state '
         '{fresh database; database with the first j<=k evolutions applied; database already '
@@ -40,7 +40,9 @@ SHRINK_CHECKS = 20
 def cases(draw, stratum):
     k = draw(st.integers(0, 3))
     m = draw(st.integers(1, 4))
-    p = draw(st.integers(1, m))
+    # p = 0: mark_applied=[] ("none of the migrations is covered: run them all"; the initial
+    # one is then soft-applied by Django because its table exists)
+    p = draw(st.integers(0, m))
     if stratum == 'fresh':
         start = ['fresh']
     elif stratum == 'migrated':
@@ -48,11 +50,11 @@ def cases(draw, stratum):
             m = draw(st.integers(2, 4))
             p = draw(st.integers(1, m - 1))
         p = min(p, m - 1)
-        start = ['mig', draw(st.integers(p, m - 1))]
+        start = ['mig', draw(st.integers(max(p, 1), m - 1))]
     else:
         start = ['evo', draw(st.integers(0, k))]
     pre = 0
-    if start[0] == 'evo' and draw(st.integers(0, 3)) == 0:
+    if start[0] == 'evo' and p >= 1 and draw(st.integers(0, 3)) == 0:
         # some of the marked migrations are already in django_migrations (e.g. someone ran
         # 'migrate <app> --fake' earlier)
         pre = draw(st.integers(1, p))
@@ -101,7 +103,7 @@ def build(case, n_evos, moved, n_migs, extra_field=False, neighbours_new=True):
     # of the later migrations (only once those migrations are part of the project)
     fields = [fld('a')] + [fld('m_%d' % i) for i in range(1, p)]
     fields += [fld('c_e%d' % (i + 1)) for i in range(n_evos)]
-    fields += [fld('m_%d' % i) for i in range(p, n_migs)]
+    fields += [fld('m_%d' % i) for i in range(max(p, 1), n_migs)]
     if extra_field:
         fields.append(fld('zz'))
     S.add_model(spec, 'pa', S.new_model('Book', fields))
